@@ -201,7 +201,10 @@ def _worker_inner(modname, builds, known, w, seed, tier, deadline, nworkers):
 
     # ---- generated part
     nmax = check.examples(tier)
-    per_worker = max(1, nmax // nworkers)
+    # Hypothesis starts every run with its simplest examples, so a worker needs a few hundred examples before
+    # it reaches the rarer combinations; each worker therefore gets a quarter of the total (not 1/16) and the
+    # wall-clock budget of the tier (never a verdict) decides how many are actually judged.
+    per_worker = max(1, nmax // 4)
     if not failing and per_worker > 0 and check.strategy(tier) is not None:
         state = {"stop": False}
 
